@@ -52,6 +52,16 @@ func badValue(kind string) interface{} {
 		return nil
 	case "bool":
 		return true
+	case "f4-just-over":
+		return 3.4028235e38 // MaxFloat32 as printed: slightly above MaxFloat32 as a float64
+	case "f4-over":
+		return 1e39
+	case "f4-neg-over":
+		return -3.5e38
+	case "int-over-u4":
+		return int64(1) << 32
+	case "uint8-300":
+		return 300
 	}
 	return struct{ A int }{1}
 }
@@ -174,7 +184,31 @@ func c09Eval(c *ctx, cs c09Case) {
 		m.Item = cs.Tpl
 		var viaFill, viaDirect *ast.DataMessage
 		o1 := real.Try(func() {
-			viaFill = real.BuildMsg(&m).FillVariables(raw)
+			tm := real.BuildMsg(&m)
+			if len(keys)%2 == 0 {
+				// the template is asked for everything before it is filled (a derived message must not inherit answers)
+				_ = tm.ToBytes()
+				_ = tm.Variables()
+				_ = tm.String()
+				c.Class("message-observed-before-fill")
+			}
+			viaFill = tm.FillVariables(raw)
+			if len(keys) > 1 {
+				// and in two steps with a probe in between
+				half := map[string]interface{}{}
+				for i, k := range keys {
+					if i%2 == 0 {
+						half[k] = raw[k]
+					}
+				}
+				step := real.BuildMsg(&m).FillVariables(half)
+				_ = step.ToBytes()
+				_ = step.Variables()
+				viaFill2 := step.FillVariables(raw)
+				if d := real.Snap(viaFill2).Diff(real.Snap(viaFill)); d != "" {
+					panic("two-step message fill differs: " + d)
+				}
+			}
 		})
 		o2 := real.Try(func() {
 			viaDirect = real.BuildMsgWith(&m, direct)
@@ -221,7 +255,7 @@ func setPartitions(keys []string) [][][]string {
 func runC09(c *ctx) {
 	c.Rule = "ellipsis-free templates over all node kinds (nesting <= 6, variables in scalar slots, list variables, ASCII variables with bounds) x assignments (total, partial, empty, with unknown keys, values of every accepted Go type) : FillVariables must equal direct construction with the values in place (String, Variables, Size, ToBytes), equal the model substitution, leave remaining variables in order, refuse exactly when the constructor refuses (out-of-domain values of 12 kinds), compose over every set partition of <= 4 keys (random ordered splits beyond), and keep the message header while filling. non-trivial = at least one key names a variable of the template; distinct by (template, keys, split, bad values)"
 	c.Assume = []string{"fill-in values are variable-free (as the property quantifies)", "direct construction = the repository's own factories called with the values in place"}
-	badKinds := []string{"neg", "big", "huge", "float", "nan", "str-nonascii", "str-long", "int-for-ascii", "struct", "nil", "bool"}
+	badKinds := []string{"neg", "big", "huge", "float", "nan", "str-nonascii", "str-long", "int-for-ascii", "struct", "nil", "bool", "f4-just-over", "f4-over", "f4-neg-over", "int-over-u4", "uint8-300"}
 	n := c.pick(50000, 500000)
 	c.parallel(n, func(i int, r *rng.R) {
 		g := gen.New(r, gen.Profile{MaxDepth: 1 + r.Intn(6), Vars: true, Budget: 300, MaxKids: 4, MaxElems: 5})
@@ -301,7 +335,7 @@ func runC09(c *ctx) {
 			c09Eval(c, cs)
 		}
 	})
-	c.Required = []string{"total-assignment", "partial-assignment", "empty-assignment", "out-of-domain-values", "refused-by-both", "split-into-2", "split-into-3", "message-level"}
+	c.Required = []string{"total-assignment", "partial-assignment", "empty-assignment", "out-of-domain-values", "refused-by-both", "split-into-2", "split-into-3", "message-level", "message-observed-before-fill"}
 }
 
 func replayC09(c *ctx, raw json.RawMessage) {
